@@ -1423,7 +1423,78 @@ func cdBatchRoundTrip(rows []influx.Row) (batch []byte, diff string) {
 	if err != nil {
 		return batch, "FastUnmarshalMultiRows: " + err.Error()
 	}
-	return batch, cdRowsEqual(rows, got)
+	if d := cdRowsEqual(rows, got); d != "" {
+		return batch, d
+	}
+	// the same batch decoded into POOLED rows, tags, fields and index options that earlier batches of this process
+	// were decoded into (truncated to [:0], never cleared) - the way WAL replay (walRowsObjects) and the store's write
+	// RPC (pointsdecoder) decode: what a batch decodes to must not depend on what the pool held before
+	pr, pt, pf, po, pk, err := influx.FastUnmarshalMultiRows(batch, cdPool.rows[:0], cdPool.tags[:0], cdPool.fields[:0], cdPool.opts[:0], cdPool.keys[:0])
+	if err != nil {
+		return batch, "FastUnmarshalMultiRows into pooled rows: " + err.Error()
+	}
+	// (a pooled numeric field may keep the string bytes of the slot's previous occupant: only the member the field's
+	// type selects is part of the value; index options, tags, names and times are compared as they are, and the pooled
+	// rows must re-encode to the very same bytes)
+	cmp := make([]influx.Row, len(pr))
+	copy(cmp, pr)
+	for i := range cmp {
+		cmp[i].Fields = append([]influx.Field(nil), pr[i].Fields...)
+		if i >= len(rows) {
+			continue
+		}
+		for k := range cmp[i].Fields {
+			if k >= len(rows[i].Fields) {
+				break
+			}
+			if cmp[i].Fields[k].Type == influx.Field_Type_String {
+				cmp[i].Fields[k].NumValue = rows[i].Fields[k].NumValue
+			} else {
+				cmp[i].Fields[k].StrValue = rows[i].Fields[k].StrValue
+			}
+		}
+	}
+	d := cdRowsEqual(rows, cmp)
+	if d == "" {
+		for i := range rows {
+			if di := cdIndexOptionsDiff(rows[i].IndexOptions, pr[i].IndexOptions); di != "" {
+				d = fmt.Sprintf("row %d index options: %s", i, di)
+				break
+			}
+		}
+	}
+	if d == "" {
+		if again, err2 := influx.FastMarshalMultiRows(nil, pr); err2 != nil {
+			d = "re-encoding the pooled rows: " + err2.Error()
+		} else if !bytes.Equal(again, batch) {
+			d = fmt.Sprintf("the pooled rows re-encode to %d bytes that differ from the %d bytes they were decoded from", len(again), len(batch))
+		}
+	}
+	cdPool.rows, cdPool.tags, cdPool.fields, cdPool.opts, cdPool.keys = pr, pt, pf, po, pk
+	if d != "" {
+		return batch, "decoded into pooled rows (as WAL replay and the write RPC do): " + d
+	}
+	return batch, ""
+}
+
+func cdIndexOptionsDiff(a, b influx.IndexOptions) string {
+	if len(a) != len(b) {
+		return fmt.Sprintf("%d options decoded, %d were encoded: %v vs %v", len(b), len(a), b, a)
+	}
+	for i := range a {
+		if a[i].Oid != b[i].Oid || fmt.Sprint(a[i].IndexList) != fmt.Sprint(b[i].IndexList) {
+			return fmt.Sprintf("option %d: %v, expected %v", i, b[i], a[i])
+		}
+	}
+	return ""
+}
+
+var cdPool struct {
+	rows   []influx.Row
+	tags   []influx.Tag
+	fields []influx.Field
+	opts   []influx.IndexOption
+	keys   []byte
 }
 
 // unmarshal a proper prefix held in a buffer of exactly that capacity: "incomplete" | "rows" | "panic"
